@@ -332,6 +332,54 @@ def gen_spec(rng, idx, mode=None):
     return spec
 
 
+# ------------------------------------------------------------------------------------- malformed stream
+def make_invalid(rng, spec):
+    """Break exactly one metadata rule of a valid spec (in place); returns the reason code or None when no
+    rule can be broken on this spec.  Every such metadata is refused by LFRicKernMetadata (ParseError)."""
+    import copy
+    args = spec["args"]
+    cands = []
+    scal = [a for a in args if a["k"] == "scalar"]
+    flds = [a for a in args if a["k"] == "field"]
+    if scal:
+        cands.append("scalar-written")
+    if [a for a in flds if a["stencil"]]:
+        cands.append("stencil-not-read-only")
+    if [a for a in flds if a["fs"] in DISC + ANYD[:4]] and spec["operates_on"] != "dof":
+        cands.append("inc-on-discontinuous-space")
+    if [a for a in flds if is_cont(a["fs"])] and spec["operates_on"] == "cell_column":
+        cands.append("readwrite-on-continuous-space")
+    if not spec["funcs"]:
+        cands.append("gh_shape-without-meta_funcs")
+    if spec["funcs"]:
+        cands.append("meta_funcs-space-not-in-meta_args")
+    if spec["refelem"]:
+        cands.append("duplicate-reference-element-property")
+    cands.append("nothing-written")
+    why = rng.choice(cands)
+    if why == "scalar-written":
+        rng.choice(scal)["acc"] = "write"
+    elif why == "stencil-not-read-only":
+        a = rng.choice([a for a in flds if a["stencil"]])
+        a["acc"] = "inc" if is_cont(a["fs"]) else "readwrite"
+    elif why == "inc-on-discontinuous-space":
+        rng.choice([a for a in flds if a["fs"] in DISC + ANYD[:4]])["acc"] = "inc"
+    elif why == "readwrite-on-continuous-space":
+        rng.choice([a for a in flds if is_cont(a["fs"])])["acc"] = "readwrite"
+    elif why == "gh_shape-without-meta_funcs":
+        spec["shapes"] = [rng.choice(SHAPES)]
+    elif why == "meta_funcs-space-not-in-meta_args":
+        used = spaces_of(args)
+        other = [f for f in CONT + DISC if f not in used]
+        spec["funcs"] = list(spec["funcs"]) + [(rng.choice(other), ["gh_basis"])]
+    elif why == "duplicate-reference-element-property":
+        spec["refelem"] = list(spec["refelem"]) + [spec["refelem"][0]]
+    else:
+        for a in args:
+            a["acc"] = "read"
+    return why
+
+
 # ------------------------------------------------------------------------------------- text
 def arg_meta(a):
     acc = "gh_" + a["acc"]
